@@ -19,6 +19,7 @@ ASSUMPTIONS = [
     "allocation failure, stack depth and capacity requests passed as caller-supplied usize (reserve, reserve_exact, with_capacity) are outside the property's string-argument quantifier: listed, not claimed",
     "J15: TABLE[b as usize] / TABLE[usize::from(b)] for b: u8 is justified only if the table has at least 256 entries; a `const fn` that no run-time body calls (it only initialises a const item) is evaluated by the compiler, where a panic is a compile error",
     "J14: ARRAY[e as usize] is justified only if e is an enum value with default discriminants and the array is at least as long as the enum has variants",
+    "J16: v[start..] on a String is justified only if start is v.len() evaluated earlier (dominating) in the same function and every operation on v in that function appends or rewrites in place (ASCII case change)",
     "J13: a string slice &s[..i] / &s[i+1..] is justified only if i is the Some-payload of s.find(c) / s.rfind(c) on the same s for a one-byte (ASCII) char constant c",
     "J12: x - c is justified only by a dominating branch condition on the same x that implies x >= c (x != 0, x > k, x >= k)",
     "J9: a sum of lengths of strings/collections that are simultaneously alive, plus their count, cannot exceed usize::MAX (each counted element occupies at least one byte of address space)",
@@ -234,6 +235,42 @@ def from_search(facts, t, depth=0):
     return None
 
 
+def adt_of_term(facts, b, t):
+    """type name of the value a place term denotes, for the few shapes the index rules meet ('' if unknown)"""
+    t = strip(t)
+
+    def bare(ty):
+        ty = ty.strip()
+        while ty.startswith("&"):
+            ty = ty[1:].lstrip()
+            if ty.startswith("'"):
+                ty = ty.split(" ", 1)[1] if " " in ty else ty
+            if ty.startswith("mut "):
+                ty = ty[4:]
+        return ty
+    if t[0] == "arg":
+        return bare(b.locals[t[1]]["ty"])
+    if t[0] == "vfield":
+        base = adt_of_term(facts, b, t[1])
+        adt = facts.adts.get(base.split("<")[0])
+        if adt:
+            for v in adt["variants"]:
+                if v["name"] == t[2]:
+                    for f in v["fields"]:
+                        if f["name"] == t[3]:
+                            return bare(f["ty"])
+        return ""
+    if t[0] == "field":
+        base = adt_of_term(facts, b, t[1])
+        adt = facts.adts.get(base.split("<")[0])
+        if adt and len(adt["variants"]) == 1:
+            for f in adt["variants"][0]["fields"]:
+                if f["name"] == t[2]:
+                    return bare(f["ty"])
+        return ""
+    return ""
+
+
 def justify(facts, s):
     """Return (justification-id or None, detail)."""
     k, bb = s["fn"], s["bb"]
@@ -370,6 +407,13 @@ def justify(facts, s):
             fcs = [models._find_call(a) for a in arms]
             if arms and all(fc is not None and fc[2] == s_ and ord(fc[1]) < 128 for fc in fcs):
                 return "J13", "slice of the string at the position of one of %s found in it" % sorted(set(fc[1] for fc in fcs))
+        # &tail[1..] where (head, tail) = s.split_at(pos), pos the position of a one-byte char found in s: tail starts with it
+        if rg[0] == "agg" and rg[1][0] == "adt" and rg[1][1] == "std::ops::RangeFrom" and len(rg[2]) == 1 and rg[2][0] == ("const", 1):
+            tl = strip(args[0])
+            if tl[0] == "field" and tl[2] == "1" and tl[1][0] == "call" and tl[1][1] == models.STR + "split_at" and len(tl[1][2]) == 2:
+                fc = models._find_call(tl[1][2][1])
+                if fc is not None and strip(fc[2]) == strip(tl[1][2][0]) and ord(fc[1]) < 128:
+                    return "J13", "slice past the first byte of the tail of split_at at the position where the one-byte char %r was found" % fc[1]
         return None, "string slice whose bounds are not the position of a char found in the same string: %s" % nshow(args[1])[:100]
     if item in ("index", "index_mut", "remove", "swap_remove") and "Vec" in p:
         idx = args[1]
@@ -392,6 +436,12 @@ def justify(facts, s):
                 if from_search(facts, ii) == "err(search)" and bb in b.reachable_from(ins[0][0]):
                     return "J5", "index = Ok(i) of the search, or the index of the Vec::insert that precedes on the Err path"
             return None, "index may be an insertion point without insert"
+        if idx[0] == "field" and idx[2] == "index" and idx[1] != ("arg", 1):
+            # `o.qualifiers[o.index]` on an OccupiedEntry reached some other way (the payload of Entry::Occupied, a local):
+            # the same representation invariant, provided index and Vec are the two fields of one and the same entry
+            recv = strip(args[0])
+            if recv == ("field", idx[1], "qualifiers") and adt_of_term(facts, b, idx[1]).startswith("qualifiers::OccupiedEntry<"):
+                return "J6", "OccupiedEntry.index with that entry's own Vec: the entry is built only in entry() from Ok(i) and holds the &mut Vec (C11 IDX)"
         if idx[0] == "field" and idx[1] == ("arg", 1) and idx[2] == "index":
             st = facts.fns.get(k, {}).get("impl_self", "")
             if st.startswith("qualifiers::OccupiedEntry<"):
@@ -408,6 +458,33 @@ def justify(facts, s):
         if idx[0] == "field" and idx[1] == ("arg", 1) and idx[2] == "index" and facts.fns.get(k, {}).get("impl_self", "").startswith("qualifiers::VacantEntry<"):
             return "J7", "VacantEntry.index: built only in entry() from Err(i) of the search, Vec untouched in between (borrow held)"
         return None, "insertion index %s" % nshow(idx)[:100]
+    if item in ("index", "index_mut") and p.startswith("<std::string::String as std::ops::Index") and len(args) == 2:
+        # J16: &mut v[start..] with start = v.len() taken earlier in this function, v only ever appended to: the String never
+        # shrinks, so start <= len, and a length is the end of valid text, so it stays a char boundary under appends
+        rg = args[1]
+        recv = args[0]
+        if rg[0] == "agg" and rg[1][0] == "adt" and rg[1][1] == "std::ops::RangeFrom" and len(rg[2]) == 1 and recv[0] == "var":
+            ln = rg[2][0]
+            if ln[0] == "call" and ln[1] in ("std::string::String::len", models.STR + "len") and len(ln[2]) == 1 and strip(ln[2][0])[0] == "var" and strip(ln[2][0])[1] == recv[1] and b.dominates(ln[3], bb):
+                GROW = ("push", "push_str", "extend", "extend_from_slice", "reserve", "deref_mut", "index_mut", "make_ascii_lowercase", "make_ascii_uppercase", "with_capacity", "new", "len", "write_str", "write_char", "write_fmt")
+                effs = [e for e in models.mut_effects(b) if e["target"][:2] == ("var", recv[1])]
+                shrink = [e["path"] for e in effs if e["path"].split("::")[-1] not in GROW]
+                reassigned = len([d for d in b.defs().get(recv[1], []) if not b.is_cleanup(d[0])]) != 1
+                if not shrink and not reassigned:
+                    return "J16", "slice from an earlier length of the same String, which is only appended to in this function"
+                return None, "the String indexed from an earlier length may shrink or be replaced: %s" % (shrink or "reassigned")
+        return None, "String index whose start is not an earlier length of the same String: %s" % nshow(rg)[:100]
+    if item == "split_at" and p == models.STR + "split_at" and len(args) == 2:
+        pos = args[1]
+        s_ = strip(args[0])
+        arms = list(pos[1]) if pos[0] == "phi" else [pos]
+        ok_ = bool(arms)
+        for a in arms:
+            if not (a[0] in ("some", "ok") and a[1][0] == "call" and a[1][1] in (models.STR + "find", models.STR + "rfind") and strip(a[1][2][0]) == s_):
+                ok_ = False
+        if ok_:
+            return "J13", "split of the string at the position where a pattern was found in it (the start of a match is a char boundary within the string)"
+        return None, "split_at position is not a position found in the same string: %s" % nshow(pos)[:100]
     if item == "with_capacity":
         n = args[0] if args else None
         if n is not None and (bounded_term(n) or n[0] == "field" and bounded_term(n)):
@@ -444,10 +521,29 @@ def rule_panic(ctx):
         tag = "" if fs == "default" else "[%s] " % fs
         sites = panic_sites(facts)
         ndoc = {}
+        callers = None
         for s in sites:
             why = docpanic_for(facts, s["fn"])
             jid, det = justify(facts, s)
             inst = "%s%s %s" % (tag, s["kind"], s["what"])
+            if jid is None and why is None and s["kind"] == "panic-call":
+                # the panic sits in a private helper (`#[cold] fn not_found(..) -> !`): it belongs to the functions that call
+                # it -- documented if every one of them documents it, once per call site
+                f_ = facts.fns.get(s["fn"], {})
+                if f_ and not f_.get("reachable") and "impl_trait" not in f_:
+                    if callers is None:
+                        callers = {}
+                        for k2, b2 in facts.bodies.items():
+                            for bb2, t2 in b2.calls(include_cleanup=True):
+                                if "path" in t2["callee"]:
+                                    callers.setdefault(callee_name(t2["callee"]), []).append((b2.j.get("root", k2) if b2.kind == "closure" else k2, b2.site(bb2)))
+                    cs = callers.get(s["fn"], [])
+                    whys = [docpanic_for(facts, k2) for k2, _ in cs]
+                    if cs and all(whys):
+                        for (k2, site2), w in zip(cs, whys):
+                            ndoc[w] = ndoc.get(w, 0) + 1
+                            ctx.ob("PANIC", inst + " -- documented panic (raised through the private helper %s)" % f_.get("name"), True, fn=k2, site=site2, detail="R-DOCPANIC: " + w)
+                        continue
             if jid is None and why is not None and s["kind"] in ("panic-call", "api") and (s["kind"] == "panic-call" or s.get("item") in ("unwrap", "expect")):
                 ndoc[why] = ndoc.get(why, 0) + 1
                 ctx.ob("PANIC", inst + " -- documented panic", True, fn=s["fn"], site=s["site"], detail="R-DOCPANIC: " + why)
